@@ -12,49 +12,6 @@ import Flussab.Proof.SwarList
 namespace Flussab.C13
 open Flussab Text
 
-theorem foldl_dec (bs : VBytes) (a : Nat) :
-    bs.foldl (fun acc b => acc * 10 + (b.toNat - 48)) a =
-      a * 10 ^ bs.length + bs.foldl (fun acc b => acc * 10 + (b.toNat - 48)) 0 := by
-  induction bs generalizing a with
-  | nil => simp
-  | cons b bs ih =>
-    simp only [List.foldl, List.length_cons]
-    rw [ih (a * 10 + (b.toNat - 48)), ih (0 * 10 + (b.toNat - 48))]
-    simp only [Nat.zero_mul, Nat.zero_add, Nat.pow_succ]
-    rw [Nat.add_mul, Nat.mul_assoc, Nat.mul_comm 10 (10 ^ bs.length)]
-    omega
-
-theorem decVal_eq (ds : VBytes) : decVal ds = ds.foldl (fun acc b => acc * 10 + (b.toNat - 48)) 0 := by
-  cases ds <;> rfl
-
-theorem decVal_append (a b : VBytes) : decVal (a ++ b) = decVal a * 10 ^ b.length + decVal b := by
-  simp only [decVal_eq, List.foldl_append]
-  exact foldl_dec b _
-
-theorem accum_add (ds : VBytes) (P : Int) :
-    accum false P ds = P * (10 ^ ds.length : Nat) + (decVal ds : Nat) := by
-  induction ds generalizing P with
-  | nil => simp [accum, decVal]
-  | cons b bs ih =>
-    have hd := decVal_append [b] bs
-    simp only [List.singleton_append] at hd
-    simp only [accum, Bool.false_eq_true, ↓reduceIte, ih, hd, List.length_cons, Nat.pow_succ]
-    have : decVal [b] = b.toNat - 48 := by simp [decVal]
-    rw [this]; simp only [digitVal]; push_cast
-    rw [Int.add_mul, Int.mul_assoc, Int.mul_comm 10]; omega
-
-theorem accum_sub (ds : VBytes) (P : Int) :
-    accum true P ds = P * (10 ^ ds.length : Nat) - (decVal ds : Nat) := by
-  induction ds generalizing P with
-  | nil => simp [accum, decVal]
-  | cons b bs ih =>
-    have hd := decVal_append [b] bs
-    simp only [List.singleton_append] at hd
-    simp only [accum, ↓reduceIte, ih, hd, List.length_cons, Nat.pow_succ]
-    have : decVal [b] = b.toNat - 48 := by simp [decVal]
-    rw [this]; simp only [digitVal]; push_cast
-    rw [Int.sub_mul, Int.mul_assoc, Int.mul_comm 10]; omega
-
 /-- The loop, started exact-or-flagged, returns the exact accumulated value iff it is
 representable. -/
 theorem loop_exact (t : IntTy) (hb : 1 ≤ t.bits) (sub : Bool) (bs : VBytes) (v : Int) (o : Bool)
